@@ -176,6 +176,25 @@ def d2(cx: Cx, ob: Ob) -> None:
                 ob.violate(fn.qualname, where(fn, line), "the URI parse is only reached after the CURIE test failed", witness=f"path: {describe_path(ctx)}", detail="uri-after-curie")
             if not is_const(kw.get("return_none"), True):
                 ob.violate(fn.qualname, where(fn, line), "parse calls parse_uri without return_none=True (legacy (None, None) result)", detail="return-none")
+    # 'otherwise nothing': the failure answer is given only after the URI test has failed (the CURIE side may be cut
+    # short by a test of its own - a string without the delimiter is no CURIE - the URI side may not)
+    reported_early = False
+    for o, ctx in s.outcomes():
+        if o is None or reported_early:
+            continue
+        failing = (o[0] == "return" and is_const(o[1], None)) or (o[0] == "raise" and op(o[1]) == "call" and callee_name(o[1]) in ("CompressionError", "ExpansionError", "ValueError"))
+        if not failing or any(g.kind == "except" for g in ctx.guards):
+            continue
+        uri_seen = any(g.kind == "guard" and _uri_test(g.a, me, arg) is not None for g in ctx.guards)
+        if not uri_seen and n_uri:
+            reported_early = True
+            ob.violate(
+                fn.qualname,
+                where(fn, o[2]),
+                f"parse gives its failure answer on a path that has not asked whether the string is a URI of the converter (under {describe_path(ctx)[:70]}): a recognised URI that meets that condition - no delimiter of this converter in it, ... - is answered with nothing although is_uri / compress / parse_uri accept it",
+                witness="Converter(records, delimiter='|').parse('http://purl.obolibrary.org/obo/GO_1'), or a URI prefix without a scheme and the default delimiter",
+                detail="failure-before-uri-test",
+            )
     if n_uri == 0:
         # no return goes through parse_uri: either the URI side is gone, or it is answered another way (through
         # compress and a re-split of its CURIE, ...), which this rule does not follow
